@@ -24,9 +24,10 @@ def scenarios(tier, rng):
         combos += [("SAVI", "forest"), ("PI", "tabular"), ("VI", "de_moor")]
     n_hook = 5 if tier == "quick" else 40
     n_shim = 6 if tier == "quick" else 60
+    n_wall = 2 if tier == "quick" else 20
     for kind, pname in combos:
         pspec, full = P[pname]
-        for j in range(n_hook + n_shim):
+        for j in range(n_hook + n_shim + n_wall):
             freq = rng.choice([1, 2, 3])
             keep = rng.choice([1, 2])
             isasync = rng.random() < 0.6
@@ -34,9 +35,12 @@ def scenarios(tier, rng):
             if j < n_hook:
                 g1["kill_at"] = rng.randint(2, 40 if j % 2 else 75)   # n-th hook event: sweeps, save calls/returns, ...
                 tag = f"hook{g1['kill_at']}"
-            else:
+            elif j < n_hook + n_shim:
                 g1["shim_kill"] = rng.randint(2, 110)       # K-th file-system mutation under the directory
                 tag = f"fs{g1['shim_kill']}"
+            else:
+                g1["kill_after"] = round(rng.uniform(0.0, 0.25), 3)   # seconds after the first save call is visible
+                tag = f"wall{int(g1['kill_after'] * 1000)}ms"
             gens = [g1]
             r = rng.random()
             if r < 0.3:
@@ -47,7 +51,7 @@ def scenarios(tier, rng):
             else:
                 gens.append({"ops": after_kill(full, extra_restore_each=r < 0.6)})
             out.append(base_scenario(f"{kind}-{pname}-{tag}-f{freq}m{keep}{'a' if isasync else 's'}", kind, pname,
-                                     pspec, full, freq, keep, isasync, gens))
+                                     pspec, full, freq, keep, isasync, gens, shim_log=True))
     return out
 
 
@@ -82,6 +86,16 @@ def run(tier):
     for sc, tr, at, prop, clause, desc in report(rep, results, "C11"):
         rep.violation(f"{prop} {clause} :: {desc}", {"scenario": sc, "clause": clause, "event_index": at,
                                                         "event": tr["ev"][at - 1] if 0 < at <= len(tr["ev"]) else None})
+    # environment assumptions of the Checkpoint model, validated on every file-system log of a first generation
+    envs = [{"ops": g[0]["fs_ops"]} for _, _, g in results if g and g[0].get("fs_ops")]
+    if envs:
+        eacc, erej, _, eres = C.judge_traces("OrbaxEnvTrace", envs, chunk=500, what="C11 environment")
+        for r in eres:
+            rep.add_tlc("OrbaxEnvTrace (file-system logs of the checkpoint library)", r)
+        for k in erej:
+            rep.spec_drift(f"environment assumption does not hold on a recorded file-system log: {erej[k][0][1]}")
+        rep.extra["file_system_logs_validated"] = len(envs)
+        rep.extra["file_system_mutations_validated"] = sum(len(e["ops"]) for e in envs)
     pm = {"tmp_left": 0, "no_final": 0, "final_present": 0}
     for sc, tr, gens in results:
         for e in tr["ev"]:
